@@ -100,6 +100,19 @@ func genData(r *Rng, shape string, n int) []byte {
 			}
 			b = append(b, []byte(string(rune(rg[0]+r.Intn(span+1))))...)
 		}
+	case "runs+esc": // run-rich data with the default escape byte of RLT (0xFB) inside, in particular among the last bytes
+		b = genData(r, "runs", n)
+		for k := r.Range(1, 6); k > 0 && len(b) > 0; k-- {
+			b[r.Intn(len(b))] = 0xFB
+		}
+		for k := 1; k <= 8 && k <= len(b); k++ {
+			if r.Intn(3) == 0 {
+				b[len(b)-k] = 0xFB
+			}
+		}
+		if len(b) >= 5 && r.Bool() {
+			b[len(b)-5] = 0xFB
+		}
 	case "utf8bad": // valid UTF-8 except for a few long sequences whose 3rd or 4th byte is an ASCII character
 		b = genData(r, "utf8", n)
 		for k := 1 + r.Intn(2); k > 0 && len(b) > 8; k-- {
